@@ -19,6 +19,7 @@ CONSTANTS
   JitterChoices = {99999}
   Deviations = {"F12", "F14"}
   MaxApps = 0
+  MaxSucc = 6
   Depth = 130
   BootSize = 7
   WProgress = 66
